@@ -8,7 +8,7 @@ def ms_of(y, mo, d, h=0, mi=0, s=0, ms=0):
     return ((days * 24 + h) * 60 + mi) * 60000 + s * 1000 + ms
 
 COMPONENTS = ['Y', 'M', 'D', 'd', 'F', 'W', 'w', 'H', 'h', 'P', 'm', 's', 'f', 'Z', 'z', 'C', 'E']
-MODS = ['', '1', '01', '001', '0001', 'I', 'i', 'w', 'W', 'Ww', 'n', 'N', 'Nn', '1o', 'Wo', 'wo', '01:01', '0101', '01:01t', '0t', 'Nn,3-3', 'N,*-3', '1,2', '1,2-3', '1,*-2', ',2', '01,3-4', 'Y', '#', '9', ',*-*']
+MODS = ['', '1', '01', '001', '0001', 'I', 'i', 'w', 'W', 'Ww', 'n', 'N', 'Nn', '1o', 'Wo', 'wo', '1o,3', '1o,2-4', '01o', '1o,*-2', 'Wo,12', 'wo,3-5', '1o,1', 'I,5', 'i,*-2', 'w,20', 'Ww,1-3', '01:01', '0101', '01:01t', '0t', 'Nn,3-3', 'N,*-3', '1,2', '1,2-3', '1,*-2', ',2', '01,3-4', 'Y', '#', '9', ',*-*']
 
 def cases(tier, seed):
     rng = random.Random(seed)
@@ -85,6 +85,13 @@ def cases(tier, seed):
     for y in list(range(1000, 1030)) + list(range(1100, 1125)) + list(range(2000, 2035)) + [2111, 2112, 2113, 3011, 4012, 5013, 9911, 9912, 9913, 9999, 1211, 1312, 1413]:
         add('$fromMillis(%d, "[Y1o]") = "%s"' % (ms_of(y, 6, 15, 0, 0, 0), ordinal(y)), None, ('law', 'law-total', 'ordinal'))
         add('$fromMillis(%d, "[Y1o,*-2]|[W1o]|[F1o]")' % ms_of(y, 6, 15, 0, 0, 0), None, ('ordinal',))
+    # ordinal modifier combined with a minimum width: the digits are padded, the suffix follows
+    for doy in range(1, 367, 5):
+        dt = datetime.datetime(2021, 1, 1) + datetime.timedelta(days=doy - 1)
+        ms = ms_of(dt.year, dt.month, dt.day, 7, 8, 9)
+        for w in (2, 3, 4, 6):
+            o = ordinal(dt.day); od = ordinal(dt.timetuple().tm_yday)
+            add('$fromMillis(%d, "[D1o,%d]|[d1o,%d]") = "%s|%s"' % (ms, w, w, o[:-2].rjust(w, '0') + o[-2:], od[:-2].rjust(w, '0') + od[-2:]), None, ('law', 'law-total', 'ordinal-width'))
     # 12-hour clock at every hour
     for h in range(24):
         add('$fromMillis(%d, "[h]:[m01] [P] / [H01]")' % ms_of(2020, 6, 15, h, 7), None, ('hour12',))
